@@ -4,7 +4,7 @@ import vlib
 
 MODULES = {
     "C11": "cbor_checks", "C12": "cbor_checks", "C13": "cbor_checks",
-    "C14": "mice_checks", "C15": "mice_checks", "C16": "sh_checks", "C10": "total_checks", "C18": "purity_checks", "C19": "wf_checks", "C07": "ib_checks", "C06": "bsig_checks", "C03": "bundle_checks", "C04": "bundle_checks", "C05": "bundle_checks", "C17": "cert_checks", "C01": "sxg_checks", "C02": "sxg_checks", "C08": "sxg_checks", "C09": "sxg_checks",
+    "C14": "mice_checks", "C15": "mice_checks", "C16": "sh_checks", "C20": "cli_checks", "C10": "total_checks", "C18": "purity_checks", "C19": "wf_checks", "C07": "ib_checks", "C06": "bsig_checks", "C03": "bundle_checks", "C04": "bundle_checks", "C05": "bundle_checks", "C17": "cert_checks", "C01": "sxg_checks", "C02": "sxg_checks", "C08": "sxg_checks", "C09": "sxg_checks",
 }
 
 
